@@ -240,6 +240,13 @@ func (c *Checker) Check(b *Battle) {
 		}
 		return
 	}
+	if len(b.Ws) == 0 && b.P > 1000 {
+		// a simulator with that many warriors (reports.go: manyWarriors)
+		if c.Props.C15 {
+			c.manyWarriors(b.M, int(b.P))
+		}
+		return
+	}
 	c.Rep.States++
 	if b.M > 64 && (c.Props.C02 || c.Props.C04) {
 		c.stepwiseBig(b)
@@ -367,70 +374,8 @@ func (c *Checker) stepwise(b *Battle) {
 			rep.Transitions++
 			final := lis.snap()
 			if c.Props.C02 {
-				rep.Traces++
-				if !completed {
-					rep.Count("c02:decided-mid-cycle")
-				}
-				if before-m.Living >= 2 {
-					rep.Count("c02:two-deaths-in-one-cycle")
-				}
-				for _, t := range m.Tasks {
-					if t.Died {
-						rep.Count(fmt.Sprintf("c02:death-at-position-%d", t.W))
-					}
-					if len(t.Pushed) < len(t.Out.Push) {
-						rep.Count("c02:split-dropped-at-limit")
-					}
-				}
-				ok := len(lis.tasks) == len(m.Tasks)
-				if ok {
-					for i := range m.Tasks {
-						if lis.tasks[i].W != m.Tasks[i].W || lis.tasks[i].PC != m.Tasks[i].PC {
-							ok = false
-						}
-					}
-				}
-				if !ok {
+				if !c.compare02(b, sim, lis, hs, m, cyc, ret, final, before, completed, "") {
 					agree = false
-					c.fail("C02", "executed-tasks", b, func() string {
-						return fmt.Sprintf("cycle %d: gmars executed %s, reference %s", cyc, taskList(lis.tasks), refTaskList(m.Tasks))
-					})
-				}
-				if ret != m.Living || sim.WarriorLivingCount() != m.Living {
-					agree = false
-					c.fail("C02", "living-count", b, func() string {
-						return fmt.Sprintf("cycle %d: RunCycle returned %d, WarriorLivingCount %d, reference %d", cyc, ret, sim.WarriorLivingCount(), m.Living)
-					})
-				}
-				if uint64(sim.CycleCount()) != m.Cycles {
-					agree = false
-					c.fail("C02", "cycle-count", b, func() string {
-						return fmt.Sprintf("cycle %d: CycleCount %d, reference completed cycles %d", cyc, sim.CycleCount(), m.Cycles)
-					})
-				}
-				for i, h := range hs {
-					if len(m.Ws[i].Q) > 256 && cyc%997 != 0 && m.Active() {
-						// very long queues are compared every 997th cycle and at the end
-						if h.Alive() != m.Ws[i].Alive {
-							agree = false
-							c.fail("C02", "queue", b, func() string {
-								return fmt.Sprintf("cycle %d warrior %d: alive=%v, reference %v", cyc, i, h.Alive(), m.Ws[i].Alive)
-							})
-						}
-						continue
-					}
-					if h.Alive() != m.Ws[i].Alive || !eqQ(h.Queue(), m.Ws[i].Q) {
-						agree = false
-						c.fail("C02", "queue", b, func() string {
-							return fmt.Sprintf("cycle %d warrior %d: alive=%v queue=%v, reference alive=%v queue=%v", cyc, i, h.Alive(), h.Queue(), m.Ws[i].Alive, m.Ws[i].Q)
-						})
-					}
-				}
-				if !eqCore(final, m.Core) {
-					agree = false
-					c.fail("C02", "core", b, func() string {
-						return fmt.Sprintf("cycle %d: core %s, reference %s", cyc, hx.CoreStr(final), hx.CoreStr(m.Core))
-					})
 				}
 			}
 			if c.Props.C04 {
@@ -477,6 +422,31 @@ func (c *Checker) stepwise(b *Battle) {
 			}
 			rep.Count("c04:second-rounds-after-reset")
 		}
+		if c.Props.C02 && !c.Props.C15 && agree && b.C <= 24 {
+			// a second round on the same simulator: Reset, the same warriors at the
+			// same places, the same lock-step comparison (whatever the first battle
+			// left behind besides core and queues must not matter)
+			stage = "second round"
+			sim.Reset()
+			for i, w := range b.Ws {
+				if err := sim.SpawnWarrior(i, g.Address(w.Off)); err != nil {
+					panicked = "second round: SpawnWarrior: " + err.Error()
+					return
+				}
+			}
+			m2 := newRef(b)
+			for cyc := 0; m2.Active() && cyc <= int(b.C)+2; cyc++ {
+				m2.Cycle()
+				lis.tasks = lis.tasks[:0]
+				lis.reps = lis.reps[:0]
+				ret := sim.RunCycle()
+				rep.Transitions++
+				if !c.compare02(b, sim, lis, hs, m2, cyc, ret, lis.snap(), 0, true, "second round after Reset, ") {
+					break
+				}
+			}
+			rep.Count("c02:second-rounds-after-reset")
+		}
 		if c.Props.C02 {
 			if m.Cycles >= m.MaxCycles {
 				rep.Count("c02:stopped-by-cycle-limit")
@@ -500,6 +470,86 @@ func (c *Checker) stepwise(b *Battle) {
 			c.fail(p, "panic", b, func() string { return stage + ": " + panicked })
 		}
 	}
+}
+
+// compare02 is the per-cycle C02 comparison of gmars with the reference
+// scheduler (round names the round for the second-round check).
+func (c *Checker) compare02(b *Battle, sim g.ReportingSimulator, lis *listener, hs []g.Warrior, m *ref.Mars, cyc int, ret int, final []g.Instruction, before int, completed bool, round string) bool {
+	rep := c.Rep
+	agree := true
+	rep.Traces++
+	if round != "" {
+		completed, before = true, m.Living // the vacuity counters describe first rounds only
+	}
+	if !completed {
+		rep.Count("c02:decided-mid-cycle")
+	}
+	if before-m.Living >= 2 {
+		rep.Count("c02:two-deaths-in-one-cycle")
+	}
+	for _, t := range m.Tasks {
+		if round != "" {
+			break
+		}
+		if t.Died {
+			rep.Count(fmt.Sprintf("c02:death-at-position-%d", t.W))
+		}
+		if len(t.Pushed) < len(t.Out.Push) {
+			rep.Count("c02:split-dropped-at-limit")
+		}
+	}
+	ok := len(lis.tasks) == len(m.Tasks)
+	if ok {
+		for i := range m.Tasks {
+			if lis.tasks[i].W != m.Tasks[i].W || lis.tasks[i].PC != m.Tasks[i].PC {
+				ok = false
+			}
+		}
+	}
+	if !ok {
+		agree = false
+		c.fail("C02", "executed-tasks", b, func() string {
+			return fmt.Sprintf(round+"cycle %d: gmars executed %s, reference %s", cyc, taskList(lis.tasks), refTaskList(m.Tasks))
+		})
+	}
+	if ret != m.Living || sim.WarriorLivingCount() != m.Living {
+		agree = false
+		c.fail("C02", "living-count", b, func() string {
+			return fmt.Sprintf(round+"cycle %d: RunCycle returned %d, WarriorLivingCount %d, reference %d", cyc, ret, sim.WarriorLivingCount(), m.Living)
+		})
+	}
+	if uint64(sim.CycleCount()) != m.Cycles {
+		agree = false
+		c.fail("C02", "cycle-count", b, func() string {
+			return fmt.Sprintf(round+"cycle %d: CycleCount %d, reference completed cycles %d", cyc, sim.CycleCount(), m.Cycles)
+		})
+	}
+	for i, h := range hs {
+		if len(m.Ws[i].Q) > 256 && cyc%997 != 0 && m.Active() {
+			// very long queues are compared every 997th cycle and at the end
+			if h.Alive() != m.Ws[i].Alive {
+				agree = false
+				c.fail("C02", "queue", b, func() string {
+					return fmt.Sprintf(round+"cycle %d warrior %d: alive=%v, reference %v", cyc, i, h.Alive(), m.Ws[i].Alive)
+				})
+			}
+			continue
+		}
+		if h.Alive() != m.Ws[i].Alive || !eqQ(h.Queue(), m.Ws[i].Q) {
+			agree = false
+			c.fail("C02", "queue", b, func() string {
+				return fmt.Sprintf(round+"cycle %d warrior %d: alive=%v queue=%v, reference alive=%v queue=%v", cyc, i, h.Alive(), h.Queue(), m.Ws[i].Alive, m.Ws[i].Q)
+			})
+		}
+	}
+	if !eqCore(final, m.Core) {
+		agree = false
+		c.fail("C02", "core", b, func() string {
+			return fmt.Sprintf(round+"cycle %d: core %s, reference %s", cyc, hx.CoreStr(final), hx.CoreStr(m.Core))
+		})
+	}
+
+	return agree
 }
 
 // compareRun: Run() (after pre stepped cycles) must end in the reference's final state.
@@ -601,12 +651,23 @@ func (c *Checker) rotations(b *Battle) {
 		return
 	}
 	M := b.M
-	for j := uint64(0); j < 3; j++ {
+	var maxOff uint64
+	for _, w := range b.Ws {
+		if w.Off > maxOff {
+			maxOff = w.Off
+		}
+	}
+	for j := uint64(0); j < 4; j++ {
 		for k := uint64(0); k < M; k++ {
 			if j == 0 && k == 0 {
 				continue
 			}
 			sh := k + j*M
+			if j == 3 {
+				// the largest spelling: the highest offset lands within M of 2^64
+				sh = k + (^uint64(0)-k-maxOff)/M*M
+				rep.Count("c12:offsets-just-below-2^64")
+			}
 			f := RunWhole(b, sh)
 			rep.Transitions++
 			rep.Traces++
@@ -666,6 +727,14 @@ func (c *Checker) bigRotation(b *Battle, shifts []uint64) {
 		return
 	}
 	M := b.M
+	// and a multiple of M that puts the highest offset just below 2^64
+	var maxOff uint64
+	for _, w := range b.Ws {
+		if w.Off > maxOff {
+			maxOff = w.Off
+		}
+	}
+	shifts = append(append([]uint64{}, shifts...), (^uint64(0)-maxOff)/M*M, (^uint64(0)-maxOff)/M*M-M+1)
 	for _, sh := range shifts {
 		f := RunWhole(b, sh)
 		rep.Transitions++
